@@ -2,6 +2,7 @@
 # usage: tools/keys_at.sh <PROP> <repo-commit-ish> <file>...   -- finding keys of PROP with the given files at that commit
 cd "$(dirname "$0")/.."
 prop=$1; c=$2; shift 2
+git -C /repo diff --quiet -- "$@" || { echo "keys_at: uncommitted changes in $* -- commit them first (the files are restored to HEAD afterwards)" >&2; exit 2; }
 git -C /repo checkout -q $c -- "$@"
 VERIF_PRINT_KEYS=1 ./check $prop --no-write 2>&1 | grep '^  key=' | sed 's/^  key=//'
 git -C /repo checkout -q HEAD -- "$@"
